@@ -75,6 +75,7 @@ theorem fLocal_slot : ∀ x v, fLocal x = some v → x.slot = some 6 := by intro
 theorem fRemote_slot : ∀ x v, fRemote x = some v → x.slot = some 7 := by intro x v h; cases x <;> simp_all [fRemote, ZField.slot]
 theorem fTags_slot : ∀ x v, fTags x = some v → x.slot = some 8 := by intro x v h; cases x <;> simp_all [fTags, ZField.slot]
 theorem fKind_slot : ∀ x v, fKind x = some v → x.slot = some 9 := by intro x v h; cases x <;> simp_all [fKind, ZField.slot]
+theorem fAnnotations_slot : ∀ x v, fAnnotations x = some v → x.slot = some 10 := by intro x v h; cases x <;> simp_all [fAnnotations, ZField.slot]
 
 /-! ### what one member does: accepted or not (independent of the state), and the update it makes -/
 
@@ -91,19 +92,24 @@ def hexVal (h : JStr) (w : Nat) : Bytes :=
 def timeOk (v : ZTime) : Bool := match zTime v with | .ok _ => true | .error _ => false
 def timeVal (v : ZTime) : Int := match zTime v with | .ok t => t | .error _ => 0
 
+/-- the service name a list of `serviceName` members leaves: the last string, `dflt` when there is none -/
+def lastSvc (dflt : Str) : List (Option Str) → Str
+  | [] => dflt
+  | o :: r => lastSvc (o.getD dflt) r
+
 def epOk (e : Option Endpoint) : Bool :=
   match e with
   | none => false
-  | some e => match e.serviceName with | .bad => false | _ => true
+  | some e => e.svcs.all Option.isSome
 
 def epSvc (e : Option Endpoint) : Str :=
   match e with
-  | some e => (match e.serviceName with | .str s => s | _ => [])
+  | some e => lastSvc [] e.svcs
   | none => []
 
 def epKv (pfx : String) (e : Option Endpoint) : List (Str × Str) :=
   match e with
-  | some e => (match e.serviceName with | .str s => [(epKey pfx, s)] | _ => [])
+  | some e => e.svcs.filterMap (fun o => o.map (fun s => (epKey pfx, s)))
   | none => []
 
 def tagsKv (t : Option (List (Str × Option Str))) : List (Str × Str) :=
@@ -123,6 +129,7 @@ def fieldOk (c : Cfg) : ZField → Bool
   | .remoteEndpoint e => epOk e
   | .tags t => t.isSome
   | .kind _ => true
+  | .annotations _ => true
   | .other => true
 
 /-- the tag rows a member contributes, in document order -/
@@ -133,13 +140,31 @@ def fieldKv : ZField → List (Str × Str)
   | .tags t => tagsKv t
   | _ => []
 
+theorem epFold_eq (pfx : String) : ∀ (svcs : List (Option Str)) (st : Str × List (Str × Str)),
+    svcs.foldlM (epStep pfx) st =
+      if svcs.all Option.isSome then
+        .ok (lastSvc st.1 svcs, st.2 ++ svcs.filterMap (fun o => o.map (fun s => (epKey pfx, s))))
+      else .error .reject := by
+  intro svcs
+  induction svcs with
+  | nil => intro st; simp [lastSvc]; rfl
+  | cons o r ih =>
+    intro st
+    cases o with
+    | none => simp [List.foldlM_cons, epStep]; rfl
+    | some s =>
+      rw [List.foldlM_cons]
+      show (r.foldlM (epStep pfx) (s, st.2 ++ [(epKey pfx, s)])) = _
+      rw [ih]
+      simp [lastSvc, List.append_assoc]
+
 theorem parseEndpoint_eq (pfx : String) (e : Option Endpoint) :
     parseEndpoint pfx e = if epOk e then .ok (epSvc e, epKv pfx e) else .error .reject := by
   cases e with
   | none => rfl
   | some e =>
-    obtain ⟨sn, v4, v6, port⟩ := e
-    cases sn <;> rfl
+    simp only [parseEndpoint, epFold_eq, epOk, epSvc, epKv, List.nil_append]
+    rfl
 
 theorem parseTags_eq (t : Option (List (Str × Option Str))) :
     parseTags t = if t.isSome then .ok (tagsKv t) else .error .reject := by
@@ -193,6 +218,7 @@ theorem zStep_error (c : Cfg) (l : ZLoop) (f : ZField) (h : fieldOk c f = false)
   | remoteEndpoint e => simp only [fieldOk] at h; simp [zStep, parseEndpoint_eq, h]; rfl
   | tags t => simp only [fieldOk] at h; simp [zStep, parseTags_eq, h]; rfl
   | kind v => simp [fieldOk] at h
+  | annotations a => simp [fieldOk] at h
   | other => simp [fieldOk] at h
 
 /-- the update an accepted member makes to the loop state -/
@@ -207,6 +233,7 @@ def fieldUpd (c : Cfg) (l : ZLoop) : ZField → ZLoop
   | .remoteEndpoint e => { l with remoteSvc := epSvc e, d := { l.d with kv := l.d.kv ++ epKv "remote_endpoint_" e } }
   | .tags t => { l with d := { l.d with kv := l.d.kv ++ tagsKv t } }
   | .kind _ => l
+  | .annotations _ => l
   | .other => l
 
 theorem zStep_ok (c : Cfg) (l : ZLoop) (f : ZField) (h : fieldOk c f = true) : zStep c l f = .ok (fieldUpd c l f) := by
@@ -257,6 +284,7 @@ theorem zStep_ok (c : Cfg) (l : ZLoop) (f : ZField) (h : fieldOk c f = true) : z
   | remoteEndpoint e => simp only [fieldOk] at h; simp [zStep, parseEndpoint_eq, h, fieldUpd]; rfl
   | tags t => simp only [fieldOk] at h; simp [zStep, parseTags_eq, h, fieldUpd]; rfl
   | kind v => rfl
+  | annotations a => rfl
   | other => rfl
 
 end Qryn.Span
@@ -320,6 +348,8 @@ theorem zSpec_cons (c : Cfg) (l : ZLoop) (f : ZField) (fs : List ZField)
     simp [zSpec, fieldUpd, zFind_cons, fTraceId, fId, fParentId, fTimestamp, fDuration, fName, fLocal, fRemote, fieldKv]
   | kind v =>
     simp [zSpec, fieldUpd, zFind_cons, fTraceId, fId, fParentId, fTimestamp, fDuration, fName, fLocal, fRemote, fieldKv]
+  | annotations a =>
+    simp [zSpec, fieldUpd, zFind_cons, fTraceId, fId, fParentId, fTimestamp, fDuration, fName, fLocal, fRemote, fieldKv]
   | other =>
     simp [zSpec, fieldUpd, zFind_cons, fTraceId, fId, fParentId, fTimestamp, fDuration, fName, fLocal, fRemote, fieldKv]
 
@@ -354,13 +384,21 @@ def specArgs (c : Cfg) (raw : ZSpan) : Args :=
   ⟨l.d.traceId.getD [], l.d.spanId.getD [], l.d.ts, l.d.dur, l.d.parentId, l.d.name, svc, .zipkin raw, raw.rawLen,
    l.d.kv ++ [(kServiceName, svc)]⟩
 
+/-- every member is accepted and nothing but white space follows the object -/
+def ZSpan.ok (c : Cfg) (raw : ZSpan) : Bool := raw.fields.all (fieldOk c) && raw.tail.all isWs
+
 theorem decodeSpan_spec (c : Cfg) (d : ZDec) (raw : ZSpan) (hu : raw.UniqueKeys) :
-    (decodeSpan c d raw).map (·.2) = if raw.fields.all (fieldOk c) then .ok (specArgs c raw) else .error .reject := by
-  unfold decodeSpan
+    (decodeSpan c d raw).map (·.2) = if raw.ok c then .ok (specArgs c raw) else .error .reject := by
+  unfold decodeSpan ZSpan.ok
   simp only [bind, Except.bind, zfold_spec c raw.fields _ hu]
   by_cases h : raw.fields.all (fieldOk c) = true
-  · simp only [h, if_true]; rfl
-  · simp only [h]; rfl
+  · simp only [h, if_true, Bool.true_and]
+    by_cases ht : raw.tail.all isWs = true
+    · simp only [ht]; rfl
+    · have ht' : raw.tail.all isWs = false := by simpa using ht
+      simp only [ht']; rfl
+  · have h' : raw.fields.all (fieldOk c) = false := by simpa using h
+    simp only [h', Bool.false_and]; rfl
 
 end Qryn.Span
 
@@ -409,3 +447,109 @@ theorem zFind_perm {α} (g : ZField → Option α) (k : Nat) (hg : ∀ x v, g x 
 
 end Qryn.Span
 
+
+namespace Qryn.Span
+
+/-! ### the walk over ANY member list (duplicate names allowed): the last occurrence of a name wins -/
+
+/-- the last member of that name -/
+def zLast {α} (fs : List ZField) (g : ZField → Option α) : Option α := zFind fs.reverse g
+
+theorem zLast_nil {α} (g : ZField → Option α) : zLast [] g = none := rfl
+
+theorem zLast_cons {α} (f : ZField) (fs : List ZField) (g : ZField → Option α) :
+    zLast (f :: fs) g = (zLast fs g).or (g f) := by
+  unfold zLast zFind
+  rw [List.reverse_cons, List.findSome?_append]
+  cases h : List.findSome? g fs.reverse with
+  | some v => simp
+  | none => simp [List.findSome?_cons]; cases g f <;> rfl
+
+/-- the loop state after the walk over any member list: every scalar member by its LAST occurrence, the tag rows of
+    all members in document order -/
+def zSpecLast (c : Cfg) (l : ZLoop) (fs : List ZField) : ZLoop :=
+  { d :=
+      { traceId := ((zLast fs fTraceId).map (fun h => hexVal h c.traceHex)).or l.d.traceId
+        spanId := ((zLast fs fId).map (fun h => hexVal h c.spanHex)).or l.d.spanId
+        ts := ((zLast fs fTimestamp).map timeVal).getD l.d.ts
+        dur := ((zLast fs fDuration).map timeVal).getD l.d.dur
+        parentId := ((zLast fs fParentId).map (fun h => hexVal h c.parentHex)).getD l.d.parentId
+        name := ((zLast fs fName).map (fun v => v.getD [])).getD l.d.name
+        svc := l.d.svc
+        payload := l.d.payload
+        payloadLen := l.d.payloadLen
+        kv := l.d.kv ++ fs.flatMap fieldKv }
+    localSvc := ((zLast fs fLocal).map epSvc).getD l.localSvc
+    remoteSvc := ((zLast fs fRemote).map epSvc).getD l.remoteSvc }
+
+theorem zSpecLast_nil (c : Cfg) (l : ZLoop) : zSpecLast c l [] = l := by
+  obtain ⟨⟨_, _, _, _, _, _, _, _, _, _⟩, _, _⟩ := l
+  simp [zSpecLast, zLast_nil]
+
+theorem zSpecLast_cons (c : Cfg) (l : ZLoop) (f : ZField) (fs : List ZField) :
+    zSpecLast c (fieldUpd c l f) fs = zSpecLast c l (f :: fs) := by
+  cases f with
+  | traceId v =>
+    simp [zSpecLast, fieldUpd, zLast_cons, fTraceId, fId, fParentId, fTimestamp, fDuration, fName, fLocal, fRemote, fieldKv]
+  | id v =>
+    simp [zSpecLast, fieldUpd, zLast_cons, fTraceId, fId, fParentId, fTimestamp, fDuration, fName, fLocal, fRemote, fieldKv]
+  | parentId v =>
+    simp [zSpecLast, fieldUpd, zLast_cons, fTraceId, fId, fParentId, fTimestamp, fDuration, fName, fLocal, fRemote, fieldKv]
+  | timestamp v =>
+    simp [zSpecLast, fieldUpd, zLast_cons, fTraceId, fId, fParentId, fTimestamp, fDuration, fName, fLocal, fRemote, fieldKv]
+  | duration v =>
+    simp [zSpecLast, fieldUpd, zLast_cons, fTraceId, fId, fParentId, fTimestamp, fDuration, fName, fLocal, fRemote, fieldKv]
+  | name v =>
+    simp [zSpecLast, fieldUpd, zLast_cons, fTraceId, fId, fParentId, fTimestamp, fDuration, fName, fLocal, fRemote]
+  | localEndpoint e =>
+    simp [zSpecLast, fieldUpd, zLast_cons, fTraceId, fId, fParentId, fTimestamp, fDuration, fName, fLocal, fRemote, fieldKv]
+  | remoteEndpoint e =>
+    simp [zSpecLast, fieldUpd, zLast_cons, fTraceId, fId, fParentId, fTimestamp, fDuration, fName, fLocal, fRemote, fieldKv]
+  | tags t =>
+    simp [zSpecLast, fieldUpd, zLast_cons, fTraceId, fId, fParentId, fTimestamp, fDuration, fName, fLocal, fRemote, fieldKv]
+  | kind v =>
+    simp [zSpecLast, fieldUpd, zLast_cons, fTraceId, fId, fParentId, fTimestamp, fDuration, fName, fLocal, fRemote, fieldKv]
+  | annotations a =>
+    simp [zSpecLast, fieldUpd, zLast_cons, fTraceId, fId, fParentId, fTimestamp, fDuration, fName, fLocal, fRemote, fieldKv]
+  | other =>
+    simp [zSpecLast, fieldUpd, zLast_cons, fTraceId, fId, fParentId, fTimestamp, fDuration, fName, fLocal, fRemote, fieldKv]
+
+theorem zfold_last (c : Cfg) : ∀ (fs : List ZField) (l : ZLoop),
+    fs.foldlM (zStep c) l = if fs.all (fieldOk c) then .ok (zSpecLast c l fs) else .error .reject := by
+  intro fs
+  induction fs with
+  | nil => intro l; simp [zSpecLast_nil]; rfl
+  | cons f fs ih =>
+    intro l
+    rw [List.foldlM_cons]
+    by_cases hf : fieldOk c f = true
+    · rw [zStep_ok c l f hf]
+      simp only [List.all_cons, hf, Bool.true_and]
+      show (fs.foldlM (zStep c) (fieldUpd c l f)) = _
+      rw [ih, zSpecLast_cons c l f fs]
+    · have hf' : fieldOk c f = false := by simpa using hf
+      rw [zStep_error c l f hf']
+      simp only [List.all_cons, hf', Bool.false_and]
+      rfl
+
+/-- the `onSpan` arguments of ANY span whose members are all accepted -/
+def lastArgs (c : Cfg) (raw : ZSpan) : Args :=
+  let l := zSpecLast c { d := { payload := .zipkin raw, payloadLen := raw.rawLen } } raw.fields
+  let svc := if l.localSvc = [] then l.remoteSvc else l.localSvc
+  ⟨l.d.traceId.getD [], l.d.spanId.getD [], l.d.ts, l.d.dur, l.d.parentId, l.d.name, svc, .zipkin raw, raw.rawLen,
+   l.d.kv ++ [(kServiceName, svc)]⟩
+
+theorem decodeSpan_last (c : Cfg) (d : ZDec) (raw : ZSpan) :
+    (decodeSpan c d raw).map (·.2) = if raw.ok c then .ok (lastArgs c raw) else .error .reject := by
+  unfold decodeSpan ZSpan.ok
+  simp only [bind, Except.bind, zfold_last c raw.fields _]
+  by_cases h : raw.fields.all (fieldOk c) = true
+  · simp only [h, if_true, Bool.true_and]
+    by_cases ht : raw.tail.all isWs = true
+    · simp only [ht]; rfl
+    · have ht' : raw.tail.all isWs = false := by simpa using ht
+      simp only [ht']; rfl
+  · have h' : raw.fields.all (fieldOk c) = false := by simpa using h
+    simp only [h', Bool.false_and]; rfl
+
+end Qryn.Span
